@@ -22,6 +22,23 @@ func sel(e ast.Expr) string {
 	return "?"
 }
 
+// selPath renders a selector chain / call chain (a.b.c(), …) for "contains" tests.
+func selPath(e ast.Expr) string { return sel(e) }
+
+func recvName(fd *ast.FuncDecl) string {
+	if fd.Recv == nil || len(fd.Recv.List) != 1 {
+		return ""
+	}
+	t := fd.Recv.List[0].Type
+	if st, ok := t.(*ast.StarExpr); ok {
+		t = st.X
+	}
+	if id, ok := t.(*ast.Ident); ok {
+		return id.Name
+	}
+	return ""
+}
+
 func main() {
 	lib.Main(func(g *lib.Gen) {
 		const file = "pkg/clusters/clusterinfo.go"
@@ -31,7 +48,8 @@ func main() {
 		if pick == nil || pick.Body == nil || pop == nil || pop.Body == nil {
 			lib.Fatalf("ClusterInfo.PickOne / endpointPickStrategy.Pop not found in %s", file)
 		}
-		// PickOne must build an endpointPickStrategy and Pop() it
+		// 1. PickOne builds a picker (a literal of endpointPickStrategy) and Pop()s it. The field that marks it as "not a
+		// dispatch policy" is found by role: a field of the literal set to a non-empty string constant.
 		var scopeField string
 		literal, callsPop := false, false
 		ast.Inspect(pick.Body, func(n ast.Node) bool {
@@ -41,8 +59,8 @@ func main() {
 					literal = true
 					for _, el := range x.Elts {
 						if kv, ok := el.(*ast.KeyValueExpr); ok {
-							if k := sel(kv.Key); k != "cluster" && k != "upstreams" {
-								scopeField = k
+							if bl, ok := kv.Value.(*ast.BasicLit); ok && bl.Kind.String() == "STRING" && len(bl.Value) > 2 {
+								scopeField = sel(kv.Key)
 							}
 						}
 					}
@@ -57,30 +75,77 @@ func main() {
 		if !literal || !callsPop {
 			lib.Fatalf("PickOne no longer builds an endpointPickStrategy and Pop()s it: shape unknown")
 		}
-		// the cursor key of Pop: does it depend on that field?
-		keyUsesScope := false
-		keyFound := false
-		ast.Inspect(pop.Body, func(n ast.Node) bool {
-			as, ok := n.(*ast.AssignStmt)
-			if !ok || len(as.Lhs) != 1 || sel(as.Lhs[0]) != "key" || len(as.Rhs) != 1 {
-				return true
+		// 2. the cursor key, by role: the first argument of a call on the cluster's loadbalancer, in Pop or in the methods of
+		// endpointPickStrategy that Pop calls (two levels); does it depend on that field?
+		methods := map[string]*ast.FuncDecl{}
+		for _, d := range f.Decls {
+			if fd, ok := d.(*ast.FuncDecl); ok && fd.Body != nil && recvName(fd) == "endpointPickStrategy" {
+				methods[fd.Name.Name] = fd
 			}
-			keyFound = true
-			ast.Inspect(as.Rhs[0], func(m ast.Node) bool {
+		}
+		reach := map[string]*ast.FuncDecl{"Pop": pop}
+		for depth := 0; depth < 2; depth++ {
+			for _, fd := range reach {
+				ast.Inspect(fd.Body, func(n ast.Node) bool {
+					if c, ok := n.(*ast.CallExpr); ok {
+						if se, ok := c.Fun.(*ast.SelectorExpr); ok {
+							if m := methods[se.Sel.Name]; m != nil {
+								if _, isIdent := se.X.(*ast.Ident); isIdent {
+									reach[se.Sel.Name] = m
+								}
+							}
+						}
+					}
+					return true
+				})
+			}
+		}
+		mentions := func(e ast.Expr) bool {
+			found := false
+			ast.Inspect(e, func(m ast.Node) bool {
 				if se, ok := m.(*ast.SelectorExpr); ok && scopeField != "" && se.Sel.Name == scopeField {
+					found = true
+				}
+				return true
+			})
+			return found
+		}
+		keyFound, keyUsesScope := false, false
+		for _, fd := range reach {
+			assigned := map[string]ast.Expr{}
+			ast.Inspect(fd.Body, func(n ast.Node) bool {
+				if as, ok := n.(*ast.AssignStmt); ok && len(as.Lhs) == len(as.Rhs) {
+					for i := range as.Lhs {
+						if id, ok := as.Lhs[i].(*ast.Ident); ok {
+							assigned[id.Name] = as.Rhs[i]
+						}
+					}
+				}
+				return true
+			})
+			ast.Inspect(fd.Body, func(n ast.Node) bool {
+				c, ok := n.(*ast.CallExpr)
+				if !ok || len(c.Args) == 0 || !strings.Contains(selPath(c.Fun), ".loadbalancer.") {
+					return true
+				}
+				keyFound = true
+				arg := c.Args[0]
+				if id, ok := arg.(*ast.Ident); ok && assigned[id.Name] != nil {
+					arg = assigned[id.Name]
+				}
+				if mentions(arg) {
 					keyUsesScope = true
 				}
 				return true
 			})
-			return true
-		})
+		}
 		if !keyFound {
-			lib.Fatalf("Pop no longer computes `key := …`: shape unknown")
+			lib.Fatalf("no call on the cluster's loadbalancer with a key found in Pop or the methods it calls: shape unknown")
 		}
 		var b strings.Builder
 		b.WriteString("namespace KG.Gen.C14\n")
 		b.WriteString("/-! " + file + ": the cursors `ClusterInfo.PickOne` uses -/\n")
-		fmt.Fprintf(&b, "/-- PickOne sets a field of its picker (%q) that is part of Pop's cursor key: it keeps its own round-robin cursors -/\n", scopeField)
+		fmt.Fprintf(&b, "/-- PickOne sets a string field of its picker (%q) that is part of the cursor key: it keeps its own round-robin cursors -/\n", scopeField)
 		fmt.Fprintf(&b, "def pickOneOwnCursors : Bool := %v\n", scopeField != "" && keyUsesScope)
 		b.WriteString("end KG.Gen.C14\n")
 		g.Emit("C14.lean", b.String())
